@@ -745,6 +745,47 @@ example :
     runHdr id false false [("X-O", some "a,b")] h expectedHdrProgram .start = some (.hdrSchema "X-O") := by decide
 
 
+/-- **`validateResponse` is the meaning of the source's statement table** of ValidateResponse (with the header program
+of validateResponseHeader), for every response map, status, header set, body and option combination: the hand-written
+model is no longer a free transcription — it equals the interpretation of the regenerated table. -/
+theorem validateResponse_is_table_program (canon : String → String) (reg : List (String × String)) (o : Opts) (i : Input) :
+    runResp canon reg o i KinModel.Gen.c08ValidateHeader KinModel.Gen.c08ValidateResponse { bodyAfter := some i.body }
+      = validateResponse canon reg o i := by
+  rw [c08flow_hdr_is_expected, c08flow_resp_is_expected]; exact runResp_expected canon reg o i
+
+/-- the interpreter is sensitive to the order of the statements: with the ExcludeResponseBody exit moved before the
+header loop, a missing required header would pass under that option -/
+example :
+    let i : Input := { method := "GET", status := 200, responses := [("200", ⟨[{ name := "X-R", required := true, schema := none }], [], true⟩)],
+                       hdrs := [], body := "", readFails := false, bodyDec := .err }
+    let o : Opts := { excludeBody := true }
+    (runResp id genReg o i expectedHdrProgram expectedRespProgram { bodyAfter := some i.body }).err = some (.hdrMissing "X-R") ∧
+    (runResp id genReg o i expectedHdrProgram
+      [.lookupStatus, .fallbackDefault, .undefinedStatus "", .unresolvedFails "", .sortedHeaderNames, .excludeBodyOk, .headerLoop true, .retNil]
+      { bodyAfter := some i.body }).err = none := by decide
+
+/-! ### Histories: the same ResponseValidationInput validated again -/
+
+/-- the input as the next call of ValidateResponse on the same object sees it: the bytes now readable from input.Body -/
+def afterCall (i : Input) (out : Out) : Option Input := out.bodyAfter.map (fun b => { i with body := b })
+
+/-- the outcomes of `n` successive calls on one input object (the sequence ends when input.Body is left nil) -/
+def validateTimes (canon : String → String) (reg : List (String × String)) (o : Opts) : Nat → Input → List Out
+  | 0, _ => []
+  | n + 1, i =>
+    let out := validateResponse canon reg o i
+    out :: (match afterCall i out with | some i' => validateTimes canon reg o n i' | none => [])
+
+/-- **Re-validation.** When the body reader does not fail, any number of successive calls on the same input object give
+the same outcome each time (verdict, error class, and the body still readable). -/
+theorem validate_history (canon : String → String) (reg : List (String × String)) (o : Opts) (i : Input)
+    (h : i.readFails = false) (n : Nat) :
+    validateTimes canon reg o n i = List.replicate n (validateResponse canon reg o i) := by
+  induction n with
+  | zero => rfl
+  | succ n ih =>
+    simp only [validateTimes, afterCall, body_readable_after canon reg o i h, Option.map_some, ih, List.replicate_succ]
+
 /-! ### Non-vacuity: inputs outside every exclusion class on which both directions are exercised -/
 
 def exResp : Resp :=
@@ -767,5 +808,10 @@ example : ¬ Accept id genReg {} (exIn 201 (.obj (.cons "pw" (.str "x") .nil))) 
   fun h => by have := (accept_iff_partial id genReg {} _ (by decide)).mpr h; revert this; decide
 example : (validateResponse id genReg {} (exIn 404 .null)).err = none := by decide
 example : classKey 201 = some "2XX" ∧ classKey 99 = none ∧ classKey 600 = none ∧ classKey 599 = some "5XX" := by decide
+
+/-- not vacuous, and the read failure is a real boundary: after a failed read input.Body is nil and the history ends -/
+example : validateTimes id genReg {} 3 (exIn 201 (.obj (.cons "pw" (.str "x") .nil)))
+    = List.replicate 3 ⟨some .bodySchema, some "…"⟩ := by decide
+example : validateTimes id genReg {} 3 { exIn 201 .null with readFails := true } = [⟨some .bodyRead, none⟩] := by decide
 
 end KinModel.Response
